@@ -594,3 +594,11 @@ PROPS["C16"]["outside"] = "cache-on/off equivalence as executions, concurrency"
 PROPS["C20"]["level_text"] += (" process_completions, one arbitrary completion entry: attributed to slot user_data - base only below `queued`; released/counted only when mark_complete accepted it "
                                "(no double free, no double count); validated against the same slot's buffer length.")
 PROPS["C20"]["functions"] += [IO + "::process_completions"]
+WORKER_TEXT = (" write_buffer_worker (E2): a request is served by flush_worker_shards(ctx, format, !defer_retirements) and a waiting flusher gets the result of that very call; the worker leaves its loop only on "
+               "shutdown or a disconnected channel; on shutdown it runs a final flush with retirements before exiting; in one arbitrary iteration of the final-flush loop the loop ends on Ok(false), on an "
+               "indeterminate or non-retryable error, and every other outcome consumes one of FINAL_FLUSH_RETRY_LIMIT retries (bounded: Drop's join terminates).")
+PROPS["C02"]["level_text"] += WORKER_TEXT
+PROPS["C18"]["level_text"] += WORKER_TEXT
+PROPS["C02"]["functions"] += [WB + "::write_buffer_worker"]
+PROPS["C18"]["functions"] += [WB + "::write_buffer_worker"]
+PROPS["C02"]["outside"] = "crash images as executions, fsync placement inside DiskIO (C03/C09 io protocol obligations)"
